@@ -322,12 +322,39 @@ static void c10(void) {
   vn_prepare(ctx);
 }
 
+/* c10esc: which byte values coap_get_uri_path() / coap_get_query() copy unescaped, asked of the
+ * library itself (a one-byte Uri-Path / Uri-Query option for each value); two 256-bit tables,
+ * bit i of byte i/8 (LSB first), printed as hex */
+static void c10esc(void) {
+  uint8_t tp[32], tq[32];
+  memset(tp, 0, sizeof(tp));
+  memset(tq, 0, sizeof(tq));
+  for (int b = 0; b < 256; b++) {
+    uint8_t v = (uint8_t)b;
+    coap_pdu_t *pdu = coap_pdu_init(COAP_MESSAGE_CON, COAP_REQUEST_CODE_GET, 1, 64);
+    coap_add_option(pdu, COAP_OPTION_URI_PATH, 1, &v);
+    coap_add_option(pdu, COAP_OPTION_URI_QUERY, 1, &v);
+    coap_string_t *p = coap_get_uri_path(pdu);
+    coap_string_t *q = coap_get_query(pdu);
+    if (p && p->length == 1 && p->s[0] == v) tp[b / 8] |= (uint8_t)(1u << (b % 8));
+    if (q && q->length == 1 && q->s[0] == v) tq[b / 8] |= (uint8_t)(1u << (b % 8));
+    coap_delete_string(p);
+    coap_delete_string(q);
+    coap_delete_pdu(pdu);
+  }
+  for (int i = 0; i < 32; i++) printf("%02x", tp[i]);
+  putchar(' ');
+  for (int i = 0; i < 32; i++) printf("%02x", tq[i]);
+  putchar('\n');
+}
+
 int main(void) {
   coap_startup();
   coap_set_log_level(COAP_LOG_EMERG);
   while (next_case(stdin)) {
     if (vntok == 0) { puts(""); continue; }
     if (!strcmp(vtok[0], "c10")) c10();
+    else if (!strcmp(vtok[0], "c10esc")) c10esc();
     else puts("ERROR unknown command");
     fflush(stdout);
   }
